@@ -140,10 +140,13 @@ def check(spec, ctx):
             graph.add_edge(key[i], key[i + 1])
         for pos, lab in spec["edge_labels"]:
             graph.edges[(key[pos], key[pos + 1])]["tag"] = lab
+            if (spec["rng"] // 11) % 2 == 0:      # an edge may carry several labels at once
+                graph.edges[(key[pos], key[pos + 1])]["note"] = "n"
+                ctx.label("edge_with_two_labels")
             edge_labels[frozenset((pos + 1, pos + 2))] = lab
         if spec["circular"]:
             # the ring is a matter of topology: the closing edge may carry the parser's label, none, or another one
-            closing = [{"linktype": "circle"}, {}, {"tag": "E"}][(spec["rng"] // 7) % 3]
+            closing = [{"linktype": "circle"}, {}, {"tag": "E"}, {"linktype": "circle", "tag": "E"}][(spec["rng"] // 7) % 4]
             graph.add_edge(key[0], key[n - 1], **closing)
             if "linktype" not in closing:
                 ctx.label("ring_without_circle_label")
